@@ -2,7 +2,7 @@
 import numpy as np, random, warnings
 warnings.filterwarnings('ignore')
 from harness import lib, oracles
-from harness.lib import dense, consistent
+from harness.lib import dense, consistent, close
 from harness.props.c01 import gen_tt, rranks, snapshot, unchanged
 from harness.props.c03 import thr_lit
 from harness.props.c05 import UnitTape
@@ -248,6 +248,14 @@ def side_case(seed):
             sols.append(sol)
         if not (np.array_equal(x, xs) and np.array_equal(y, ys)):
             return 'data matrices modified', desc
+        # the guess may also be given as a list with one train per output: same result, guesses untouched
+        glist = [guess.copy() for _ in range(dout)]
+        lsnap = snapshot(glist)
+        sol_l = reg.arr(x, y, basis, glist, repeats=1, rcond=1e-13, progress=False)
+        if not unchanged(glist, lsnap):
+            return 'arr modified the trains of a list-valued initial guess', desc
+        if len(sol_l) != dout or any(not close(dense(a_.cores), dense(b_.cores), 1e-9) for a_, b_ in zip(sol_l, sols[0])):
+            return 'arr with a list-valued guess differs from arr with the same train as guess', desc
         desc['residuals'] = res
         g = dense(guess.cores).reshape(nfeat)
         r0 = dout * 0.0 + sum(float(np.sum((g @ P - y[k]) ** 2)) for k in range(dout))
